@@ -892,3 +892,14 @@ mod unit_tests {
         is_send::<FftPlannerAvx<T>>();
     }
 }
+
+// Verification hook (add-only). Compiled only with `--cfg ejmahler_rustfft_verif`: lets the in-crate bounded checks
+// read the recipe the portable planner designs for a length without building the transform.
+#[cfg(ejmahler_rustfft_verif)]
+impl<T: FftNum> FftPlannerScalar<T> {
+    #[doc(hidden)]
+    #[allow(dead_code)]
+    pub(crate) fn verif_design(&mut self, len: usize) -> Arc<Recipe> {
+        self.design_fft_for_len(len)
+    }
+}
